@@ -721,6 +721,37 @@ def r_segimg(repo, tier):
         for fld, what in ((fsz, "file size"), (msz, "memory size")):
             if fld not in reads:
                 out.report(rel, f.dqual, "%s never read" % fld, f.node.lineno, "%s.%s never reads the segment's %s field %s: the returned image cannot %s" % (cname, mname, what, fld, "be zero-filled up to the size the segment occupies in memory" if what == "memory size" else "be limited to the file-backed part"))
+        # "nothing to map" answers: a `return None` may depend on the segment's kind, never on its file size alone
+        # (a segment with no file bytes but a memory size is pure zero fill and must still be mapped)
+        def enclosing(stmts, target, acc):
+            for st in stmts:
+                if st is target:
+                    return acc
+                if isinstance(st, ast.If):
+                    for blk in (st.body, st.orelse):
+                        r = enclosing(blk, target, acc + [st.test])
+                        if r is not None:
+                            return r
+                else:
+                    for blk in (getattr(st, "body", None), getattr(st, "orelse", None), getattr(st, "finalbody", None)):
+                        if isinstance(blk, list):
+                            r = enclosing(blk, target, acc)
+                            if r is not None:
+                                return r
+                    for h in getattr(st, "handlers", []):
+                        r = enclosing(h.body, target, acc)
+                        if r is not None:
+                            return r
+            return None
+
+        for x in ast.walk(f.node):
+            if isinstance(x, ast.Return) and (x.value is None or (isinstance(x.value, ast.Constant) and x.value.value is None)):
+                tests = enclosing(f.node.body, x, []) or []
+                attrs = [{k.attr for k in ast.walk(t) if isinstance(k, ast.Attribute)} for t in tests]
+                bad = [t for t, a in zip(tests, attrs) if fsz in a and msz not in a]
+                out.inst("%s::return None@%d" % (f.key, x.lineno), {"method": f.dqual, "return_none_under": [norm(t)[:60] for t in tests]})
+                for t in bad:
+                    out.report(rel, f.dqual, "return None under %s" % norm(t)[:60], x.lineno, "%s.%s answers 'nothing to map' under a test of the file size only (`%s`): a segment with %s == 0 and %s > 0 is pure zero fill and is no longer mapped" % (cname, mname, norm(t)[:60], fsz, msz))
         # ljust fill byte
         for g in fns:
             for x in ast.walk(g.node):
